@@ -12,6 +12,6 @@ else
   D=/var/tmp/bee2v.try.$$
   git -C /repo worktree add -q --detach $D HEAD || exit 9
   git -C $D apply "$P" || { echo "patch does not apply"; git -C /repo worktree remove --force $D; exit 9; }
-  for id in "$@"; do echo "== $id on $P (private copy)"; (cd /verif && BEE2_REPO=$D timeout 3000 ./check $id 2>&1 | grep -v "^  " | head -8; echo "rc=${PIPESTATUS[0]}"); done
+  for id in "$@"; do echo "== $id on $P (private copy)"; cp /verif/evidence/$id.json /tmp/evidence.$id.$$ 2>/dev/null; (cd /verif && BEE2_REPO=$D timeout 3000 ./check $id 2>&1 | grep -v "^  " | head -8; echo "rc=${PIPESTATUS[0]}"); cp /tmp/evidence.$id.$$ /verif/evidence/$id.json 2>/dev/null; rm -f /tmp/evidence.$id.$$; done
   git -C /repo worktree remove --force $D
 fi
